@@ -356,7 +356,10 @@ Encoded enc_bmp(const Pic& src8) {
       e.marks.push_back(s.size()); // 138
     }
   }
-  s.append(gap, '\xEE');
+  // (what fills the gap and the row padding is unspecified: other writers leave 00, FF or garbage there)
+  char gap_byte = (char)pick({0xEE, 0xFF, 0x00}, "bmp.gap.byte");
+  char pad_byte = (char)pick({0x00, 0xFF, 0xAA}, "bmp.pad.byte");
+  s.append(gap, gap_byte);
   e.marks.push_back(s.size());
   e.expect = src8;
   e.expect.alpha = bitfields;
@@ -375,7 +378,7 @@ Encoded enc_bmp(const Pic& src8) {
       e.expect.px[y * src8.w + x] = q;
     }
     e.marks.push_back(s.size());
-    s.append(pad, '\0');
+    s.append(pad, pad_byte);
     e.marks.push_back(s.size());
   }
   return e;
@@ -1217,14 +1220,18 @@ static void run() {
       string other_bytes = other_img.save(fmt2);
       phosg::Image::Format fmt = container == 0 ? phosg::Image::Format::COLOR_PPM : (container == 1 ? phosg::Image::Format::WINDOWS_BITMAP : phosg::Image::Format::PNG);
       phosg::Image img = build_image(src);
+      // one time in three the second thread saves the SAME image: save() is const, and const member functions of
+      // one object may be called from several threads at once
+      bool same_image = choose(3, "intruder.same_image") == 2;
+      if (same_image) VS_PROBE("two_threads_save_one_image");
       auto arm_intruder = [&](const char* site, unsigned ncalls) {
         g_intruder = Intruder();
         g_intruder.fire_at = ncalls ? choose(ncalls, site) : 0;
-        g_intruder.img = &other_img;
-        g_intruder.fmt = fmt2;
-        g_intruder.want_bytes = &other_bytes;
-        g_intruder.want_pic = &other_expect;
-        g_intruder.load_back = ofmt != 2;
+        g_intruder.img = same_image ? &img : &other_img;
+        g_intruder.fmt = same_image ? fmt : fmt2;
+        g_intruder.want_bytes = same_image ? &enc.bytes : &other_bytes;
+        g_intruder.want_pic = same_image ? &enc.expect : &other_expect;
+        g_intruder.load_back = same_image ? container != 2 : ofmt != 2;
         vfs::world().io_hook = intruder_hook;
       };
       auto judge_intruder = [&](const char* during) {
@@ -1493,6 +1500,17 @@ static void run() {
       }
       vfs::world().faults = vfs::Faults();
       ev("write_fault", ino->data.size(), enc.bytes.size(), save_threw);
+      // save() is const: whether it succeeded or not, the image is what it was
+      {
+        string again;
+        try {
+          again = img.save(fmt);
+        } catch (const std::exception& e) {
+          fail("save/threw", short_kind(enc.kind) + "/after_failed_save", string("Image::save(Format) threw after an earlier save of the same image had hit a full disk: ") + e.what());
+        }
+        if (again != enc.bytes && !judge_alternative_encoding(again, container, enc.expect).empty())
+          fail("save/image_changed_by_failed_save", short_kind(enc.kind), "after a save that hit a full disk, saving the same (const) image again gives a different picture: the failed save modified the image");
+      }
       if (ino->data.size() < enc.bytes.size() && !save_threw && rc == 0) {
         fail("save/short_file_reported_as_success", short_kind(enc.kind), "save(FILE*) and fclose reported success but only " + std::to_string(ino->data.size()) + " of " + std::to_string(enc.bytes.size()) + " bytes are on disk");
       }
@@ -1546,7 +1564,7 @@ int main(int argc, char** argv) {
       {"disk / file", "stub: simulated inode behind fopencookie (vsim/vfs.cc): durable prefix, scripted read sizes and EIO, capacity (full disk), short writes"},
       {"second caller thread", "real thread, released and joined by the simulator inside the first thread's k-th stream call (k from the tape)"},
       {"PNG/BMP/PPM reference decoders and foreign-file encoders", "harness code in engines/sim_image.cc sharing no code with phosg"}};
-  e.expected_probes = {"independent_decode_checked", "width_not_multiple_of_4", "grayscale_input", "bmp_bitfields_input", "bmp_top_down_input", "torn_every_prefix_of_a_file", "save_hit_full_disk", "saved_by_filename", "loaded_by_filename", "largest_picture_64x64", "faulty_file_loaded_by_filename", "image_move_assigned", "image_copy_assigned", "save_by_filename_on_full_disk", "faulty_file_loaded_from_pipe"};
+  e.expected_probes = {"independent_decode_checked", "width_not_multiple_of_4", "grayscale_input", "bmp_bitfields_input", "bmp_top_down_input", "torn_every_prefix_of_a_file", "save_hit_full_disk", "saved_by_filename", "loaded_by_filename", "largest_picture_64x64", "faulty_file_loaded_by_filename", "image_move_assigned", "image_copy_assigned", "save_by_filename_on_full_disk", "faulty_file_loaded_from_pipe", "two_threads_save_one_image"};
   e.expected_faults = {"truncation", "EIO@read", "short_read", "short_write", "ENOSPC@capacity", "unseekable_stream", "global_locale_groups_digits", "second_thread_inside_io_call", "EINTR@read(transient)", "second_file_follows_in_stream"};
   return driver_main(argc, argv, e);
 }
